@@ -1,4 +1,4 @@
-import Infretis.Lemmas.EngineLoopsInproc
+import Infretis.Lemmas.EngineLoopsPath
 /-!
 # C12 — every engine returns the trajectory it actually ran
 
@@ -20,7 +20,8 @@ Findings re-established here:
   gromacs.py:520 `system.vel *= -1` for `reverse`, then `calculate_order` negates again because
   `system.vel_rev = reverse`): `gromacs_velocity_direction_counterexample`.  CONFIRMED on the real
   `GromacsEngine` through fake gmx (tie signature `C12:gromacs:velocity-direction`); every other engine hands
-  over `-v` on backward paths.
+  over `-v` on backward paths.  Repaired in /repo by f551f52; `gromacs_frame_uses_own_box_and_velocity` is the
+  full theorem for the repaired loop, which is what the tie agrees with now.
 * CP2K never reads a box from the program's output: `cp2k_frame_uses_own_box_partial` needs a constant box
   (documented NVT-only limitation of the engine).
 -/
@@ -278,36 +279,203 @@ example : ((inproc { demoCfg with rev := true } 2 (fun i => ⟨6 - i, 100, -1⟩
     = ((inproc { demoCfg with rev := false } 2 (fun i => ⟨i, 100, 1⟩) true).es.take 4).reverse.map (·.order) := by
   decide +kernel
 
-/-! ### GROMACS (`gmxRun`: the consumer loop; `gmxExt`: with `GromacsRunner` at tick level, tied through fake gmx) -/
+/-! ### GROMACS (`gmxRun`: the consumer loop; `gmxExt`: with `GromacsRunner` at tick level, tied through fake gmx)
 
-/-- **GROMACS through `GromacsRunner`, every schedule, exit code, `need0`**: the path's `k`-th frame is the `k`-th
-    frame mdrun wrote — index, own coordinates, own box — and the velocity handed to the order function is
-    `gmxVelSeen` (the file velocity, see below). -/
-theorem gromacs_runner_frames_in_order_once (c : Cfg) (sched : Sched) (code : Int) (need0 : Nat)
-    (frames : List Frame) (fuel : Nat) (k : Nat) (hk : k < (gmxExt c sched code need0 frames fuel).es.length) :
-    ∃ f, frames[k]? = some f ∧ (gmxExt c sched code need0 frames fuel).es[k] = gmxEntry c k f :=
-  gmxExt_rec c sched code need0 frames fuel k hk
+`Variant.asIs` = the code as found (gromacs.py:520-521 negate the velocities for `reverse`, `calculate_order`
+negates again); `Variant.repaired` = those two lines deleted (/repo f551f52), what the tie now agrees with. -/
 
-/-- backward run, one frame per poll, mdrun ends with code 0 at tick 30: box of each frame is its own, the
-    velocities 5, -6, 7 of the file reach the order function unchanged although `vel_rev = true` -/
-example : (gmxExt { demoCfg with rev := true } (demoSched (fun t => t / 3) 30) 0 1
+/-- **GROMACS through `GromacsRunner`, every schedule, exit code, `need0`, both variants**: the path's `k`-th frame
+    is the `k`-th frame mdrun wrote — index, own coordinates, own box — the velocity is `gmxVel`. -/
+theorem gromacs_runner_frames_in_order_once (gv : Variant) (c : Cfg) (sched : Sched) (code : Int) (need0 : Nat)
+    (frames : List Frame) (fuel : Nat) (k : Nat) (hk : k < (gmxExt gv c sched code need0 frames fuel).es.length) :
+    ∃ f, frames[k]? = some f ∧ (gmxExt gv c sched code need0 frames fuel).es[k] = gmxEntry gv c k f :=
+  gmxExt_rec gv c sched code need0 frames fuel k hk
+
+/-- **Own box and own velocity direction — full theorem for the repaired velocity handling**: the stored order is
+    the order function of the frame's own coordinates, own box and `(-1)^vel_rev ·` its own velocity. -/
+theorem gromacs_frame_uses_own_box_and_velocity (c : Cfg) (sched : Sched) (code : Int) (need0 : Nat)
+    (frames : List Frame) (fuel : Nat) (k : Nat)
+    (hk : k < (gmxExt .repaired c sched code need0 frames fuel).es.length) :
+    ∃ f, frames[k]? = some f ∧
+      (gmxExt .repaired c sched code need0 frames fuel).es[k] = mkEntry c k f.cid f.bid f.vel := by
+  obtain ⟨f, h1, h2⟩ := gmxExt_rec .repaired c sched code need0 frames fuel k hk
+  exact ⟨f, h1, by rw [h2]; rfl⟩
+
+/-- backward run, one frame per poll, mdrun ends with code 0 at tick 30: each frame with its own box; the file
+    velocities 5, -6, 7 reach the order function as -5, 6, -7 (repaired) … -/
+example : (gmxExt .repaired { demoCfg with rev := true } (demoSched (fun t => t / 3) 30) 0 1
+      [⟨1, 10, 5⟩, ⟨2, 12, -6⟩, ⟨9, 20, 7⟩] 60).es.map (fun e => (e.idx, e.bid, e.vel, e.order))
+    = [(0, 10, -5, 1), (1, 12, 6, 2), (2, 20, -7, 9)] := by
+  decide +kernel
+
+/-- … and unchanged, as 5, -6, 7, in the code as found although `vel_rev = true` -/
+example : (gmxExt .asIs { demoCfg with rev := true } (demoSched (fun t => t / 3) 30) 0 1
       [⟨1, 10, 5⟩, ⟨2, 12, -6⟩, ⟨9, 20, 7⟩] 60).es.map (fun e => (e.idx, e.bid, e.vel, e.order))
     = [(0, 10, 5, 1), (1, 12, -6, 2), (2, 20, 7, 9)] := by
   decide +kernel
 
+/-- GROMACS consumer loop alone: frames in order, each once, with their own coordinates and box -/
+theorem gromacs_frames_in_order_once (gv : Variant) (c : Cfg) (frames : List Frame) (k : Nat)
+    (hk : k < (gmxRun gv c frames).es.length) :
+    ∃ f, frames[k]? = some f ∧ (gmxRun gv c frames).es[k] = gmxEntry gv c k f :=
+  gmxRun_rec gv c frames k hk
 
-/-- GROMACS loop: frames in order, each once, with their own coordinates and box -/
-theorem gromacs_frames_in_order_once (c : Cfg) (frames : List Frame) (k : Nat)
-    (hk : k < (gmxRun c frames).es.length) :
-    ∃ f, frames[k]? = some f ∧ (gmxRun c frames).es[k] = gmxEntry c k f :=
-  gmxRun_rec c frames k hk
-
-/-- GROMACS negates the velocities for `reverse` and `calculate_order` negates them again: the order function
-    sees the file velocity, whereas every other engine hands it `-v` on backward paths. -/
+/-- **Record of the finding** (confirmed on the real engine before f551f52, tie signature
+    `C12:gromacs:velocity-direction`): as found, the order function sees the file velocity also on backward paths,
+    whereas every other engine — and the repaired loop — hands it `-v`. -/
 theorem gromacs_velocity_direction_counterexample :
-    (∀ rev v, gmxVelSeen rev v = v) ∧ gmxVelSeen true 1 ≠ velSeen true 1 :=
-  ⟨gmxVelSeen_eq, by decide⟩
+    (∀ rev v, gmxVel .asIs rev v = v) ∧ gmxVel .asIs true 1 ≠ velSeen true 1 ∧
+    (∀ rev v, gmxVel .repaired rev v = velSeen rev v) :=
+  ⟨gmxVelSeen_eq, by decide, fun _ _ => rfl⟩
 
-example : (gmxRun { demoCfg with rev := true } [⟨1, 10, 5⟩, ⟨9, 20, 6⟩]).es.map (·.vel) = [5, 6] := by decide +kernel
+example : (gmxRun .asIs { demoCfg with rev := true } [⟨1, 10, 5⟩, ⟨9, 20, 6⟩]).es.map (·.vel) = [5, 6] := by
+  decide +kernel
+
+/-- **GROMACS: any non-zero return code collected by `check_poll` raises RuntimeError** (exit codes and deaths by
+    signal alike): a normal return with `code ≠ 0` is only possible after `add_to_path` had said stop — the path
+    is complete, never silently truncated. -/
+theorem gromacs_nonzero_exit_raises (gv : Variant) (c : Cfg) (sched : Sched) (code : Int) (hcode : code ≠ 0)
+    (need0 : Nat) (frames : List Frame) (fuel : Nat)
+    (h : (gmxExt gv c sched code need0 frames fuel).raised = none) :
+    (gmxExt gv c sched code need0 frames fuel).terminated = true :=
+  gmxExt_nonzero_exit gv c sched code hcode need0 frames fuel h
+
+/-- **GROMACS: mdrun is terminated / collected whenever propagate returns or raises** (every outcome of the model
+    except out-of-fuel = still looping).  `stop()` sends SIGTERM iff no return code had been collected
+    (`killed := !dead && alive` in `gmxExt`), then waits. -/
+theorem gromacs_program_stopped_on_return (gv : Variant) (c : Cfg) (sched : Sched) (code : Int) (need0 : Nat)
+    (frames : List Frame) (fuel : Nat)
+    (h : (gmxExt gv c sched code need0 frames fuel).raised ≠ some .fuel) :
+    (gmxExt gv c sched code need0 frames fuel).dead = true :=
+  gmxExt_program_stopped gv c sched code need0 frames fuel h
+
+/-- mdrun is killed by SIGKILL (-9) after two inside frames: RuntimeError, process collected, nothing to kill;
+    with the crossing frame seen first: normal return, flag set, SIGTERM sent -/
+example : (gmxExt .repaired demoCfg (demoSched (fun _ => 2) 6) (-9) 1 demoFrames 60).raised = some .runtime ∧
+    (gmxExt .repaired demoCfg (demoSched (fun _ => 2) 6) (-9) 1 demoFrames 60).dead = true ∧
+    (gmxExt .repaired demoCfg (demoSched (fun _ => 6) 40) (-9) 1 demoFrames 60).raised = none ∧
+    (gmxExt .repaired demoCfg (demoSched (fun _ => 6) 40) (-9) 1 demoFrames 60).terminated = true ∧
+    (gmxExt .repaired demoCfg (demoSched (fun _ => 6) 40) (-9) 1 demoFrames 60).killed = true ∧ (-9 : Int) ≠ 0 := by
+  decide +kernel
+
+/-! ### every loop builds its path by `feed`: the stop and success rules transfer -/
+
+/-- **`loop_path_eq_feed`, LAMMPS / CP2K, every schedule**: feeding the order values of the processed frames (=
+    the path's entries, which by `frames_in_order_once` are the first frames written) through `add_to_path`
+    reproduces the path, its success flag, and consumes all of them. -/
+theorem lammps_cp2k_path_eq_feed (kind : Kind) (c : Cfg) (sched : Sched) (code : Int) (frames : List Frame)
+    (fuel : Nat) :
+    let R := extRun kind c sched code frames fuel
+    feed c.left c.right (some c.maxlen) [] (R.es.map (·.order)) 0 = some (R.es.map (·.order), R.success, R.es.length) :=
+  extRun_path_eq_feed kind c sched code frames fuel
+
+theorem gromacs_path_eq_feed (gv : Variant) (c : Cfg) (sched : Sched) (code : Int) (need0 : Nat)
+    (frames : List Frame) (fuel : Nat) :
+    let R := gmxExt gv c sched code need0 frames fuel
+    feed c.left c.right (some c.maxlen) [] (R.es.map (·.order)) 0 = some (R.es.map (·.order), R.success, R.es.length) :=
+  gmxExt_path_eq_feed gv c sched code need0 frames fuel
+
+theorem inproc_loop_path_eq_feed (c : Cfg) (sub : Nat) (micro : Nat → Frame) (ase : Bool) :
+    let R := inproc c sub micro ase
+    feed c.left c.right (some c.maxlen) [] (R.es.map (·.order)) 0 = some (R.es.map (·.order), R.success, R.es.length) :=
+  inproc_path_eq_feed c sub micro ase
+
+/-- the stop rule on a path: every frame but the last is inside the interfaces and below the limit; the last one
+    is outside or at the limit — unless the frames simply ended (then all are inside and below the limit) -/
+def StopRule (c : Cfg) (es : List Entry) : Prop :=
+  (∀ i x, i + 1 < es.length → (es.map (·.order))[i]? = some x →
+      c.left ≤ x ∧ x ≤ c.right ∧ i + 1 ≠ c.maxlen) ∧
+  ((∀ i x, (es.map (·.order))[i]? = some x → c.left ≤ x ∧ x ≤ c.right ∧ i + 1 ≠ c.maxlen) ∨
+   (∃ x, 0 < es.length ∧ (es.map (·.order))[es.length - 1]? = some x ∧
+      (x < c.left ∨ x > c.right ∨ c.maxlen = es.length)))
+
+/-- the success rule on a path: success iff its last frame is outside the interfaces -/
+def SuccessRule (c : Cfg) (es : List Entry) (succ : Bool) : Prop :=
+  succ = true ↔ ∃ x, 0 < es.length ∧ (es.map (·.order))[es.length - 1]? = some x ∧ (x < c.left ∨ x > c.right)
+
+theorem path_stops_at_first_outside_or_limit (c : Cfg) (hm : 0 < c.maxlen) (es : List Entry) (succ : Bool)
+    (h : feed c.left c.right (some c.maxlen) [] (es.map (·.order)) 0 = some (es.map (·.order), succ, es.length)) :
+    StopRule c es := by
+  obtain ⟨_, _, h3, h4⟩ := stops_at_first_outside_or_limit c.left c.right (some c.maxlen) (es.map (·.order)) []
+    (es.map (·.order)) succ es.length (by intro m hm'; simp at hm'; subst hm'; simpa using hm) h
+  refine ⟨?_, ?_⟩
+  · intro i x hi hx
+    obtain ⟨a, b, c'⟩ := h3 i x hi hx
+    exact ⟨a, b, by intro e; apply c'; simp [e]⟩
+  · rcases h4 with ⟨_, h5⟩ | ⟨x, h5, h6, h7⟩
+    · left
+      intro i x hx
+      obtain ⟨a, b, c'⟩ := h5 i x hx
+      exact ⟨a, b, by intro e; apply c'; simp [e]⟩
+    · right
+      refine ⟨x, h5, h6, ?_⟩
+      rcases h7 with h7 | h7 | h7
+      · exact Or.inl h7
+      · exact Or.inr (Or.inl h7)
+      · exact Or.inr (Or.inr (by simpa using h7))
+
+theorem path_success_iff_outside (c : Cfg) (hm : 0 < c.maxlen) (es : List Entry) (succ : Bool)
+    (h : feed c.left c.right (some c.maxlen) [] (es.map (·.order)) 0 = some (es.map (·.order), succ, es.length)) :
+    SuccessRule c es succ := by
+  unfold SuccessRule
+  exact success_iff_outside c.left c.right (some c.maxlen) (es.map (·.order)) [] (es.map (·.order)) succ es.length
+    (by intro m hm'; simp at hm'; subst hm'; simpa using hm) h
+
+/-- **LAMMPS / CP2K stop at the first frame outside the interfaces or at the length limit**, every schedule -/
+theorem lammps_cp2k_stops_at_first_outside_or_limit (kind : Kind) (c : Cfg) (hm : 0 < c.maxlen) (sched : Sched)
+    (code : Int) (frames : List Frame) (fuel : Nat) : StopRule c (extRun kind c sched code frames fuel).es :=
+  path_stops_at_first_outside_or_limit c hm _ _ (extRun_path_eq_feed kind c sched code frames fuel)
+
+/-- **… and report success iff that frame is outside**, every schedule (when an error is raised, the flag left
+    behind obeys the same rule) -/
+theorem lammps_cp2k_success_iff_outside (kind : Kind) (c : Cfg) (hm : 0 < c.maxlen) (sched : Sched)
+    (code : Int) (frames : List Frame) (fuel : Nat) :
+    SuccessRule c (extRun kind c sched code frames fuel).es (extRun kind c sched code frames fuel).success :=
+  path_success_iff_outside c hm _ _ (extRun_path_eq_feed kind c sched code frames fuel)
+
+theorem gromacs_stops_at_first_outside_or_limit (gv : Variant) (c : Cfg) (hm : 0 < c.maxlen) (sched : Sched)
+    (code : Int) (need0 : Nat) (frames : List Frame) (fuel : Nat) :
+    StopRule c (gmxExt gv c sched code need0 frames fuel).es :=
+  path_stops_at_first_outside_or_limit c hm _ _ (gmxExt_path_eq_feed gv c sched code need0 frames fuel)
+
+theorem gromacs_success_iff_outside (gv : Variant) (c : Cfg) (hm : 0 < c.maxlen) (sched : Sched)
+    (code : Int) (need0 : Nat) (frames : List Frame) (fuel : Nat) :
+    SuccessRule c (gmxExt gv c sched code need0 frames fuel).es (gmxExt gv c sched code need0 frames fuel).success :=
+  path_success_iff_outside c hm _ _ (gmxExt_path_eq_feed gv c sched code need0 frames fuel)
+
+theorem inproc_stops_at_first_outside_or_limit (c : Cfg) (hm : 0 < c.maxlen) (sub : Nat) (micro : Nat → Frame)
+    (ase : Bool) : StopRule c (inproc c sub micro ase).es :=
+  path_stops_at_first_outside_or_limit c hm _ _ (inproc_path_eq_feed c sub micro ase)
+
+theorem inproc_success_iff_outside (c : Cfg) (hm : 0 < c.maxlen) (sub : Nat) (micro : Nat → Frame) (ase : Bool) :
+    SuccessRule c (inproc c sub micro ase).es (inproc c sub micro ase).success :=
+  path_success_iff_outside c hm _ _ (inproc_path_eq_feed c sub micro ase)
+
+/-- the witness run of the (former) LAMMPS defect, repaired pairing: path = feed of its own orders, success -/
+example : (0 : Nat) < demoCfg.maxlen ∧
+    feed 0 8 (some 20) [] [1, 2, 2, 3, 3, 9] 0 = some ([1, 2, 2, 3, 3, 9], true, 6) ∧
+    (extRun (.lammps .repaired) demoCfg (demoSched demoVis 8) 0 demoFrames 50).es.map (·.order) = [1, 2, 2, 3, 3, 9] := by
+  decide +kernel
+
+/-! ### the error branch not covered by `program_stopped_on_return` -/
+
+/-- **`lmp` ends with exit code 0 without ever creating its dump file** (every schedule that never shows the file):
+    the on-the-fly reader returns `[]`, `frames[0]` raises IndexError — with the program already collected, no
+    signal sent, the path empty.  The only other outcome of the model is out-of-fuel (the program is still alive
+    and the code still waiting).  CP2K in the same situation returns normally with an empty path
+    (covered by `program_stopped_on_return`). -/
+theorem lammps_no_dump_raises_index_with_program_stopped (v : Variant) (c : Cfg) (sched : Sched)
+    (frames : List Frame) (fuel : Nat) (hnf : ∀ t, (sched t).file = false) :
+    (extRun (.lammps v) c sched 0 frames fuel).raised = some .fuel ∨
+    ((extRun (.lammps v) c sched 0 frames fuel).raised = some .index ∧
+     (extRun (.lammps v) c sched 0 frames fuel).dead = true ∧
+     (extRun (.lammps v) c sched 0 frames fuel).killed = false ∧
+     (extRun (.lammps v) c sched 0 frames fuel).es = []) :=
+  lammps_no_dump_index_error v c sched frames fuel hnf
+
+example : (extRun (.lammps .repaired) demoCfg
+      (fun t => { file := false, vis := 0, vis2 := 0, alive := decide (t < 5) }) 0 demoFrames 50).raised = some .index ∧
+    (∀ t, ((fun t => { file := false, vis := 0, vis2 := 0, alive := decide (t < 5) } : Sched) t).file = false) := by
+  refine ⟨by decide +kernel, fun _ => rfl⟩
 
 end Infretis.C12
